@@ -200,12 +200,14 @@ def h_resonator(ctx, cfg):
 def h_comb(ctx, cfg):
   from audiolazy import comb
   strat = cfg["strategy"]; N = cfg["N"]
+  name = cfg.get("name", strat)          # every documented name of the strategy, item and attribute access, default call
+  fn = comb if name == "default" else (getattr(comb, name) if cfg.get("attr") else comb[name])
   with Env(ctx) as E:
     delay = ctx.split("delay", 1, cfg["D"])
     x = ctx.reals("x", N)
     if strat == "tau":
       tau = ctx.real("tau", 0, None, lo_open=True)
-      filt = comb.tau(delay, tau)
+      filt = fn(delay, tau)
       if ctx.mode == "sym":
         args = E.ex.args
         ctx.prove(len(args) == 1 and bool(ctx.eq(args[0][0], -Fraction(int(delay)) / tau)), "alpha-is-e^(-delay/tau)",
@@ -216,7 +218,7 @@ def h_comb(ctx, cfg):
         alpha = math.e ** (-delay / tau)
     else:
       alpha = ctx.real("alpha")
-      filt = comb[strat](delay, alpha)
+      filt = fn(delay, alpha)
     out = list(filt(list(x), zero=0))
     ctx.prove(len(out) == N, "comb:one-output-per-input")
     for n in range(min(N, len(out))):
@@ -274,6 +276,10 @@ def tasks(tier, seed):
     T.append(("h_resonator", {"strategy": strat}))
   for strat in ("fb", "tau", "ff"):
     T.append(("h_comb", {"strategy": strat, "D": 3 if not big else 5, "N": 5 if not big else 8, "inf": True}))
+  for strat, names in (("fb", ("default", "alpha", "fb_alpha", "feedback_alpha")), ("tau", ("fb_tau", "feedback_tau")),
+                       ("ff", ("ff_alpha", "feedforward_alpha"))):
+    for i, name in enumerate(names):
+      T.append(("h_comb", {"strategy": strat, "name": name, "attr": i % 2 == 1, "D": 2, "N": 4}))
   T.append(("h_gammatone", {"strategy": "klapuri"}))
   if big: T.append(("h_gammatone", {"strategy": "slaney"}, {"optional": True, "task_s": 900}))
   # sampled eta=1: its Jury obligation takes ~20 s of nlsat here and went over a 30 s cap on a loaded machine:
